@@ -62,6 +62,10 @@ EXPLANATION += (
     ' Round 8: block-wise loops over range(max(1, N // S)) are recognised by the whole-axis rule.'
 )
 
+EXPLANATION += (
+    ' Round 10: memo tables of the election and the taxonomy class are keyed by everything their values are computed from, early-exit form and full access paths included (R-MEMO/key-complete).'
+)
+
 RULE_TEXT = (
     "one obligation per kernel function x configuration (declared type, "
     "row independence) and per index identity")
